@@ -513,6 +513,10 @@ def cold_eval(req):
         return {"restore_exc": type(e).__name__}
     me = Lineage(rest_obj, rest_reg)
     out = {"o1": o1_describe(rest_obj, rest_reg), "follows": [], "usys": rest_reg.unit_system.name}
+    if req.get("orig_keys") is not None and req["payload"][0] in ("pickle", "pickle_nested", "json"):
+        dl = ur.default_unit_symbol_lut
+        extra = [k for k in rest_reg.lut if k not in req["orig_keys"] and k in dl and rw.entry_eq(rest_reg.lut[k], dl[k])]
+        remove_filled_in(rest_reg, extra)
     for fop in req["follows"]:
         out["follows"].append(run_follow(fop, me, me))
     return out
@@ -615,7 +619,8 @@ class Sim11:
         self.fault("chaos_" + chaos)
         self.step_no = 3
         if chaos == "fresh_process":
-            req = {"payload": payload, "regop": regop, "need_reg": route in ("str", "repr"), "follows": follows}
+            req = {"payload": payload, "regop": regop, "need_reg": route in ("str", "repr"), "follows": follows,
+                   "orig_keys": sorted(reg.lut)}
             tag, res = self.chan.cold(req)
             if tag != "ok":
                 raise HarnessError(f"fresh-process restore failed: {tag} {res}")
@@ -641,6 +646,10 @@ class Sim11:
         self.usys_names = (reg.unit_system.name, rreg.unit_system.name)
         after = o1_describe(robj, rreg)
         self.check_o1(before, after, rt, build)
+        if getattr(self, "filled_in", None):
+            # the fill-in is reported once (O1); the follow-ups then compare
+            # behaviour under equal contents
+            remove_filled_in(rreg, self.filled_in)
         # the original must not have been changed by being persisted
         again = o1_describe(obj, reg)
         if rw.compare(before, again):
@@ -709,6 +718,16 @@ class Sim11:
             # names that exist only because of the (separately reported) fill-in
             rr = {"ok": {"k": "seq", "items": [i for i in rr["ok"]["items"] if i.get("v") not in self.filled_in]}}
         diffs = [d for d in rw.compare(o, rr, stats=tstats)]
+        if diffs and all(d.endswith((".dtype", ".data")) for d in diffs):
+            # Same numbers at the narrower precision but another float width:
+            # whether a conversion of float32 data returns float32 or float64
+            # depends on whether the table scale is a Python float or a
+            # numpy.float64 (copies and JSON normalise it to float).  That is
+            # C17's subject (dtype x route); counted here, not reported.
+            if width_only(o, rr):
+                self.stats["faults"]["probe_float_width_differs_between_lineages"] = \
+                    self.stats["faults"].get("probe_float_width_differs_between_lineages", 0) + 1
+                diffs = []
         self.stats["within_tol"] += tstats.get("within_tol", 0)
         if diffs:
             fields = sorted(set(d.split(".")[-1].split(":")[-1] for d in diffs))
@@ -819,6 +838,40 @@ class Sim11:
                 o = run_follow(fop, o_lin, rest)
                 rr = run_follow(fop, rest, o_lin)
             self.check_o2(fop, o, rr, rt.get("chaos"))
+
+
+def remove_filled_in(reg, names):
+    for k in sorted(names):
+        try:
+            reg.remove(k)
+        except Exception:  # noqa: BLE001 - best effort; any remaining difference is reported by O2
+            pass
+
+
+def width_only(a, b):
+    """True if two outcome descriptions differ only in float width, with
+    numbers equal at the narrower width."""
+    if type(a) is not type(b):
+        return False
+    if isinstance(a, dict):
+        if set(a) != set(b):
+            return False
+        if "dtype" in a and "data" in a and isinstance(a["data"], list):
+            da, db = a["dtype"], b["dtype"]
+            if da != db:
+                fl = ("float16", "float32", "float64", "complex64", "complex128")
+                if da not in fl or db not in fl or (da.startswith("complex") != db.startswith("complex")):
+                    return False
+            narrow = min((da, db), key=lambda d: rw._EPS.get(d, 1.0) * -1)
+            if len(a["data"]) != len(b["data"]) or not all(rw.close(x, y, narrow) for x, y in zip(a["data"], b["data"])):
+                return False
+            return all(width_only(a[k], b[k]) for k in a if k not in ("dtype", "data"))
+        return all(width_only(a[k], b[k]) for k in a)
+    if isinstance(a, list):
+        return len(a) == len(b) and all(width_only(x, y) for x, y in zip(a, b))
+    if isinstance(a, float):
+        return rw.close(a, b)
+    return a == b
 
 
 def probe_identity(sim, obj, robj):
